@@ -433,9 +433,7 @@ Proof.
   inv_bind H. rename x into f. inv_bind H. rename x into ub.
   destruct (ub =? u64_max) eqn:Eu; [discriminate|].
   assert (Hub : ub <= u64_max).
-  { unfold applied_index_upper_bound in Hx0.
-    destruct (u64_max <? persisted l + max_apply_unpersisted_log_limit l) eqn:E; [discriminate|].
-    inversion Hx0. lia. }
+  { unfold applied_index_upper_bound in Hx0. inversion Hx0. lia. }
   exists f, ub. rewrite Hx, Hx0. cbn [bind]. rewrite Eu.
   split; [reflexivity|]. split; [reflexivity|].
   split; [lia|]. split; [lia|]. split; [reflexivity|]. split.
@@ -446,28 +444,10 @@ Proof.
     inversion H; reflexivity.
 Qed.
 
-Lemma applied_index_upper_bound_spec l ub :
-  applied_index_upper_bound l = Ok ub <->
-  persisted l + max_apply_unpersisted_log_limit l <= u64_max
-  /\ ub = N.min (committed l) (persisted l + max_apply_unpersisted_log_limit l).
-Proof.
-  unfold applied_index_upper_bound.
-  destruct (u64_max <? persisted l + max_apply_unpersisted_log_limit l) eqn:E; split.
-  - discriminate.
-  - intros [A _]. lia.
-  - intros H. inversion H. split; [lia|reflexivity].
-  - intros [_ ->]. reflexivity.
-Qed.
-
-(* F8: the u64 addition overflows: has_ready / ready / advance* panic *)
-Lemma applied_index_upper_bound_overflow l :
-  u64_max < persisted l + max_apply_unpersisted_log_limit l ->
-  applied_index_upper_bound l = Panic site_l_overflow.
-Proof.
-  intros H. unfold applied_index_upper_bound.
-  destruct (u64_max <? persisted l + max_apply_unpersisted_log_limit l) eqn:E; [reflexivity|lia].
-Qed.
-
+Lemma applied_index_upper_bound_spec l :
+  applied_index_upper_bound l =
+  Ok (N.min (committed l) (N.min u64_max (persisted l + max_apply_unpersisted_log_limit l))).
+Proof. reflexivity. Qed.
 (* ------------------------------------------------------------------ *)
 (* 1. has_ready() is true exactly when ready() returns something *)
 
@@ -663,4 +643,122 @@ Proof.
     exists k. split; [|split; [exact Hk|exact Ek]].
     destruct k; [|lia]. exfalso. cbn in Ek.
     apply (limit_size_nonempty x0 max); [exact A'|exact Ek].
+Qed.
+
+(* ------------------------------------------------------------------ *)
+(* 5. commit_since_index: never decreases; moves to the last handed-out entry
+      or, with a pending snapshot, to the snapshot index (and then no committed
+      entry is handed out in that Ready) *)
+
+Definition ready_since (n : rawnode) : N :=
+  match u_snapshot (unst (r_log (rn_raft n))) with
+  | Some s => s_index s
+  | None => rn_commit_since_index n
+  end.
+
+Lemma rn_ready_light n n' rd :
+  rn_ready n = Ok (n', rd) ->
+  exists oe k,
+    rn_commit_since_index n <= ready_since n
+    /\ next_entries_since (r_log (rn_raft n)) (ready_since n)
+         (Some (r_max_committed_size_per_ready (rn_raft n))) = Ok oe
+    /\ rd_light rd = mkLR None (ce_of oe) (r_msgs (rn_raft n))
+    /\ rn_commit_since_index n' = csi_after (ready_since n) (ce_of oe)
+    /\ (ce_of oe <> [] -> ready_since n < csi_after (ready_since n) (ce_of oe))
+    /\ ((exists s, u_snapshot (unst (r_log (rn_raft n))) = Some s) -> ce_of oe = [])
+    /\ rn_raft n' = (rn_raft n) <| r_read_states := [] |> <| r_uncommitted_size := k |>
+                                <| r_msgs := [] |>.
+Proof.
+  intros H. destruct (rn_ready_inv _ _ _ H) as (recs & snap & csi & rec_snap & ms2 & n2 & light
+    & Hrec & Hsnap & Hgl & Hn' & Hrd).
+  destruct (gen_light_ready_spec _ _ _ Hgl) as (oe & k & Hoe & Hlr & Hn2 & Hlt).
+  cbn in Hoe, Hlt.
+  assert (Hcsi : csi = ready_since n /\ rn_commit_since_index n <= csi
+                 /\ ((exists s, u_snapshot (unst (r_log (rn_raft n))) = Some s) ->
+                     has_next_entries_since (r_log (rn_raft n)) csi = Ok false)).
+  { unfold ready_snap in Hsnap. unfold ready_since.
+    destruct (u_snapshot (unst (r_log (rn_raft n)))) as [s|].
+    - destruct Hsnap as (A & B & C). inversion C; subst. auto.
+    - inversion Hsnap; subst. split; [reflexivity|]. split; [lia|]. intros [s C]. discriminate. }
+  destruct Hcsi as (-> & Hle & Hno).
+  exists oe, k. split; [exact Hle|]. split; [exact Hoe|].
+  split; [subst rd light; reflexivity|].
+  split; [subst n' n2; reflexivity|].
+  split; [exact Hlt|].
+  split.
+  - intros Hs. specialize (Hno Hs).
+    destruct (next_entries_since_has _ _ _ _ Hoe) as (f & ub & _ & _ & _ & _ & Hhas & _ & Hnone).
+    rewrite Hhas in Hno. inversion Hno as [Hno'].
+    rewrite Hnone; [reflexivity|]. clear - Hno'. lia.
+  - subst n' n2. reflexivity.
+Qed.
+
+Lemma csi_after_nil csi : csi_after csi [] = csi.
+Proof. reflexivity. Qed.
+
+Lemma csi_after_last csi ce : ce <> [] -> csi_after csi ce = e_index (List.last ce entry_default).
+Proof. destruct ce; [congruence|reflexivity]. Qed.
+
+Theorem commit_since_monotone_light n n' lr :
+  gen_light_ready n = Ok (n', lr) ->
+  rn_commit_since_index n <= rn_commit_since_index n'
+  /\ (lr_committed_entries lr = [] -> rn_commit_since_index n' = rn_commit_since_index n)
+  /\ (lr_committed_entries lr <> [] ->
+        rn_commit_since_index n' = e_index (List.last (lr_committed_entries lr) entry_default)
+        /\ rn_commit_since_index n < rn_commit_since_index n').
+Proof.
+  intros H. destruct (gen_light_ready_spec _ _ _ H) as (oe & k & Hoe & Hlr & Hn' & Hlt).
+  subst lr n'. cbn [lr_committed_entries rn_commit_since_index set].
+  cbn. destruct (ce_of oe) as [|e t] eqn:E.
+  - cbn. split; [lia|]. split; [reflexivity|congruence].
+  - specialize (Hlt ltac:(discriminate)). split; [lia|]. split; [discriminate|].
+    intros _. split; [reflexivity|exact Hlt].
+Qed.
+
+Theorem commit_since_monotone_ready n n' rd :
+  rn_ready n = Ok (n', rd) ->
+  rn_commit_since_index n <= rn_commit_since_index n'
+  /\ (forall s, u_snapshot (unst (r_log (rn_raft n))) = Some s ->
+        lr_committed_entries (rd_light rd) = []
+        /\ rn_commit_since_index n' = s_index s)
+  /\ (u_snapshot (unst (r_log (rn_raft n))) = None ->
+      lr_committed_entries (rd_light rd) = [] ->
+        rn_commit_since_index n' = rn_commit_since_index n)
+  /\ (lr_committed_entries (rd_light rd) <> [] ->
+        u_snapshot (unst (r_log (rn_raft n))) = None
+        /\ rn_commit_since_index n' = e_index (List.last (lr_committed_entries (rd_light rd)) entry_default)
+        /\ rn_commit_since_index n < rn_commit_since_index n').
+Proof.
+  intros H. destruct (rn_ready_light _ _ _ H) as (oe & k & Hle & Hoe & Hl & Hc & Hlt & Hs & _).
+  rewrite Hl, Hc. cbn [lr_committed_entries].
+  split.
+  { destruct (ce_of oe) as [|e t] eqn:E; [cbn; exact Hle|].
+    specialize (Hlt ltac:(discriminate)). lia. }
+  split.
+  { intros s Es. rewrite Hs by eauto. cbn. unfold ready_since. rewrite Es. auto. }
+  split.
+  { intros Es E. rewrite E. cbn. unfold ready_since. rewrite Es. reflexivity. }
+  intros Hne.
+  assert (Es : u_snapshot (unst (r_log (rn_raft n))) = None).
+  { destruct (u_snapshot (unst (r_log (rn_raft n)))) as [s|] eqn:Es; [|reflexivity].
+    exfalso. apply Hne. apply Hs. eauto. }
+  split; [exact Es|]. specialize (Hlt Hne).
+  rewrite csi_after_last in * by exact Hne.
+  unfold ready_since in Hlt. rewrite Es in Hlt. split; [reflexivity|exact Hlt].
+Qed.
+
+(* snapshot_ready: a Ready that carries a snapshot carries no committed entries *)
+Theorem snapshot_ready n n' rd :
+  rn_ready n = Ok (n', rd) ->
+  s_index (rd_snapshot rd) <> 0 ->
+  lr_committed_entries (rd_light rd) = []
+  /\ rn_commit_since_index n' = s_index (rd_snapshot rd)
+  /\ u_snapshot (unst (r_log (rn_raft n))) = Some (rd_snapshot rd).
+Proof.
+  intros H Hs.
+  destruct (ready_entries_are_unstable _ _ _ H) as (_ & _ & _ & _ & _ & _ & _ & _ & R5 & _).
+  destruct (u_snapshot (unst (r_log (rn_raft n)))) as [s|] eqn:Es.
+  - destruct (commit_since_monotone_ready _ _ _ H) as (_ & A & _).
+    destruct (A s Es) as [A1 A2]. rewrite R5. auto.
+  - rewrite R5 in Hs. cbn in Hs. congruence.
 Qed.
